@@ -349,6 +349,19 @@ def prepare_exception(
     return _prepare_exception(exc, coder)  # type: ignore
 
 
+def _is_unexecuted_module(module: ModuleType) -> bool:
+    """Check whether the module's code hasn't been executed yet.
+
+    Modules imported with `importlib.util.LazyLoader` are executed
+    on the first access to any of their attributes (`__dict__` and
+    `__class__` included), so only the type of the object is checked.
+
+    :param module: module to check.
+    :return: True if touching the module would import it.
+    """
+    return type(module).__getattribute__ is not ModuleType.__getattribute__
+
+
 @validate_call(config=pydantic.ConfigDict(arbitrary_types_allowed=True))
 def exception_to_python(
     exc: Optional[Union[BaseException, ExceptionRepr]],
@@ -377,6 +390,9 @@ def exception_to_python(
             # The type can contain qualified name with parent classes
             for name in exc_type.split("."):
                 if isinstance(cls, ModuleType):
+                    if _is_unexecuted_module(cls):
+                        # Reading anything from it would import it.
+                        raise KeyError(name)
                     # Modules can define `__getattr__` to import things lazily.
                     # We only look at what the module already has.
                     cls = vars(cls)[name]
@@ -387,6 +403,10 @@ def exception_to_python(
                 exc_type,
                 taskiq.exceptions.__name__,
             )
+        if isinstance(cls, ModuleType):
+            # Not an exception class for sure. And the check below
+            # would import it, if it's a lazily loaded module.
+            cls = None
 
     exc_msg = exc.exc_message
 
